@@ -1,4 +1,4 @@
-import OvniModel.Lemmas.EmuCoreHist
+import OvniModel.Lemmas.EmuCoreRec
 
 /-!
 # C04 — thread life-cycle: accepted traces follow the documented state machine
@@ -22,7 +22,8 @@ and never mentions the model's handlers.
 * `state_view`: after every accepted prefix the `state` channel shows the
   specification state and the `tid` channel shows the TID exactly while the
   thread is running, cooling or warming; `state_records` / `tid_records`: these
-  are the values the step emits as Paraver records of types 4 and 2.
+  are the values the step emits as Paraver records of types 4 and 2
+  (`stepEv_history_accept_partial`: the link between `Accepts` and the fold of the full `stepEv`).
 -/
 set_option linter.unusedSimpArgs false
 set_option linter.unusedVariables false
@@ -293,9 +294,16 @@ theorem history_accept_iff {e0 : Emu} (h0 : WF e0) (hen : e0.enabled.contains 79
     Accepts th mh e0 hist ↔ SpecAccepts e0.phys (targetOf e0) (absOf e0.threads) hist :=
   history_aux th mh e0 hen hl hist e0 h0 (SameStatic.refl e0) hadm
 
-/-- A history accepted by folding the full `stepEv` (handlers, record emission, flush) is
-    accepted in the sense of `Accepts`: the emulator component of `stepEv` is `emuStep`. -/
-theorem stepEv_fold_accepts :
+-- OPEN: `history_accept_iff` with `Accepts` replaced by "the fold of the full `stepEv` succeeds and
+-- `finish` succeeds".  `stepEv` = handlers + `records` + flush (`stepEv_ok_iff`), so the two differ
+-- exactly when `records` fails, i.e. when a value 0 would be written on a Paraver type without
+-- PRV_ZERO: a thread with TID 0, a process with PID 0, or a model channel holding 0 that becomes
+-- visible through a thread / CPU view.  Proved: the direction below (`stepEv` fold accepted ⇒
+-- `Accepts`, hence ⇒ the specification, for every system); missing: `Accepts` ⇒ `records` never
+-- fails, under the hypothesis "TIDs, PIDs and visible model-channel values are non-zero" (C13).
+/-- A history accepted by folding the full `stepEv` (handlers, record emission, flush) and then
+    `finish` is accepted in the sense of `Accepts`: the emulator component of `stepEv` is `emuStep`. -/
+theorem stepEv_history_accept_partial :
     ∀ (hist : List HEv) (e : Emu) (steps : List (Emu × List PrvRec)), steps.length = hist.length →
       (∀ i (hi : i < hist.length) (hs : i < steps.length),
         stepEv (if i = 0 then e else (steps[i - 1]'(by omega)).1) (hist[i]).1 79 72 (hist[i]).2.1 (hist[i]).2.2 th mh =
@@ -311,7 +319,7 @@ theorem stepEv_fold_accepts :
     have h0 := hstep 0 (by simp) (by simp)
     simp only [if_true, List.getElem_cons_zero] at h0
     refine ⟨s.1, stepEv_emuStep th mh (ev := ev.toOEv) (e' := s.1) (rs := s.2) h0, ?_⟩
-    apply stepEv_fold_accepts rest s.1 steps (by simpa using hlen)
+    apply stepEv_history_accept_partial rest s.1 steps (by simpa using hlen)
     · intro i hi hs
       have := hstep (i + 1) (by simp; omega) (by simp; omega)
       simp only [Nat.add_sub_cancel, List.getElem_cons_succ, Nat.add_eq_zero_iff, Nat.succ_ne_zero,
@@ -393,6 +401,92 @@ theorem state_view {e0 : Emu} (h0 : WF e0) (hen : e0.enabled.contains 79 = true)
 
 end
 
+/-! ## The Paraver records of a step -/
+
+section
+variable (th mh : Emu → Nat → Nat → Nat → List Nat → Except Err Emu)
+
+theorem prvValue_zero_int {i v : Int} (h : prvValue 0 (.int i) = .ok v) : v = i := by
+  unfold prvValue at h
+  simp only [prvNext, prvZero] at h
+  by_cases hi : i = 0
+  · subst hi; simp at h
+  · simp [hi] at h; exact h.symm
+
+theorem prvValue_tid {s : ThState} {tid v : Int} (h : prvValue 0 (tidVal s tid) = .ok v) :
+    v = if s = .running ∨ s = .cooling ∨ s = .warming then tid else 0 := by
+  unfold tidVal at h
+  cases s <;> simp [ThState.isActive] at h ⊢ <;>
+    first
+      | exact prvValue_zero_int h
+      | (have h' : Except.ok (0 : Int) = Except.ok v := h
+         injection h' with h'; exact h'.symm)
+
+/-- **Records of a step.**  An accepted `stepEv` of an OH* event on thread `ti` emits, on row
+    `ti + 1` of thread.prv, a record of type `prvThreadState` whose value is the code of the new
+    (specification) state, and — whenever the value of the tid channel changes — a record of type
+    `prvThreadTid` with the TID while the new state is running, cooling or warming and 0 otherwise. -/
+theorem state_records {e e' : Emu} (h : WF e) (hen : e.enabled.contains 79 = true) {ti : Nat} {t : Thread}
+    (ht : e.threads[ti]? = some t) {v : Nat} (hv : v ∈ [120, 99, 112, 119, 114, 101])
+    {payload : List Nat} {ci : Nat}
+    (hx : v = 120 → t.state ≠ .dead ∧ 4 ≤ payload.length ∧
+      loomGetCpu e t.loom (i32At payload 0) = some ci)
+    {rs : List PrvRec} (hs : stepEv e ti 79 72 v payload th mh = .ok (e', rs)) :
+    ∃ t' st', e'.threads[ti]? = some t' ∧ Legal t.state v = some st' ∧ t'.state = st' ∧
+      (⟨0, ti + 1, prvThreadState, st'.code⟩ : PrvRec) ∈ rs ∧
+      (tidVal t.state t.tid ≠ tidVal st' t.tid →
+        (⟨0, ti + 1, prvThreadTid,
+          if st' = .running ∨ st' = .cooling ∨ st' = .warming then t.tid else 0⟩ : PrvRec) ∈ rs) := by
+  obtain ⟨e1, hm, hrec, rfl⟩ := (stepEv_ok_iff th mh e (ti, 72, v, payload) e' rs).mp hs
+  simp only at hm
+  rw [modelEvent_OH th mh h hen ht] at hm
+  have hth := h.th ti t ht
+  have hver := preThread_verdict h ht hv (payload := payload) (ci := ci) (fun h' => (hx h').2)
+  cases hmn : modelNext t.state v with
+  | none =>
+    rw [hmn] at hver
+    obtain ⟨err, he⟩ := hver
+    rw [he] at hm; cases hm
+  | some st' =>
+    rw [hmn] at hver
+    have hso := hver.2.1 e1 hm
+    obtain ⟨⟨t0, t1, ht0, ht1, hg1, htid, hcs, hct, _⟩, _, _⟩ := hver.2.2 e1 hm
+    rw [ht] at ht0; cases ht0
+    obtain ⟨hn1, hn2⟩ := modelNext_ne hmn
+    have hflush : e1.flushAll.threads[ti]? = some t1.flush := by
+      rw [Emu.flushAll_eq]
+      show (e1.threads.map Thread.flush)[ti]? = _
+      rw [List.getElem?_map, ht1]; rfl
+    have hstate : t1.flush.state = st' := by
+      have h1 : (absOf e1.flushAll.threads)[ti]? = some (t1.flush.state, t1.flush.cpu) := by
+        unfold absOf; rw [List.getElem?_map, hflush]; rfl
+      rw [hso.abs, List.getElem?_set_self (by unfold absOf; rw [List.length_map]; exact lt_of_getElem? ht)] at h1
+      have h2 : (st', cpuAfter v t.cpu ci) = (t1.flush.state, t1.flush.cpu) := by injection h1
+      exact (congrArg Prod.fst h2).symm
+    have hmem : t1 ∈ e1.threads := List.mem_iff_getElem?.mpr ⟨ti, ht1⟩
+    obtain ⟨_, ⟨r2, hr2, hs2⟩, ⟨r3, hr3, hs3⟩⟩ := records_thread hrec hmem
+    rw [hg1] at hr2 hr3
+    refine ⟨t1.flush, st', hflush, ?_, hstate, ?_, ?_⟩
+    · rw [legal_eq_modelNext hv (fun h' => (hx h').1), hmn]
+    · have hd : t1.chState.dirty = true := by
+        rw [hcs, hth.chState.setv_dirty]
+        exact decide_eq_true (stateVal_ne hn1 hn2)
+      obtain ⟨v', hv', rfl⟩ := emitRaw_dirty_ok hd hr3
+      rw [hcs, hth.chState.setv_cur, prvValue_state hn1] at hv'
+      have : v' = st'.code := by injection hv' with hv'; exact hv'.symm
+      rw [← this]
+      exact hs3 _ (List.mem_singleton.mpr rfl)
+    · intro hne
+      have hd : t1.chTid.dirty = true := by
+        rw [hct, hth.chTid.setv_dirty]
+        exact decide_eq_true hne
+      obtain ⟨v', hv', rfl⟩ := emitRaw_dirty_ok hd hr2
+      rw [hct, hth.chTid.setv_cur] at hv'
+      rw [← prvValue_tid hv']
+      exact hs2 _ (List.mem_singleton.mpr rfl)
+end
+
+
 /-! ## Non-vacuity: a concrete two-thread, two-CPU (+ virtual CPU) system -/
 
 /-- two threads of one process on loom 0; CPUs 0 and 1 physical, CPU 2 the virtual CPU -/
@@ -421,6 +515,12 @@ def demo3 : Except Err Emu := do
   pure e3
 
 example : (demo3.toOption.map fun e => absOf e.threads) = some [(.paused, some 0), (.running, some 1)] := by
+  decide
+
+/-- the records of the first step: thread row 1 shows CPU 1 (type 6), TID 10 (type 2), state
+    running = 1 (type 4); CPU row 1 shows PID 100, TID 10 and one running thread -/
+example : (stepEv demo 0 79 72 120 (xPayload 0) noHook noHook).toOption.map (·.2) =
+    some [⟨0, 1, 6, 1⟩, ⟨0, 1, 2, 10⟩, ⟨0, 1, 4, 1⟩, ⟨1, 1, 1, 100⟩, ⟨1, 1, 2, 10⟩, ⟨1, 1, 3, 1⟩] := by
   decide
 
 /-- decidable form of `Admissible`, for concrete histories -/
